@@ -6,6 +6,7 @@ import (
 	"fmt"
 	"io"
 	"net/http"
+	"runtime/debug"
 	"time"
 
 	"verif/harness/lib"
@@ -45,10 +46,21 @@ const opWatchdog = 180 * time.Second
 
 // runOp runs one operation under its own watchdog. When the watchdog fires
 // the outcome class is "watchdog" (recorded as inconclusive, judged by nobody).
-func (rg *rig) runOp(p *op, s *lib.Server, o *object) outcome {
+func (rg *rig) runOp(p *op, s *lib.Server, o *object) (out outcome) {
 	ctx, cancel := context.WithTimeout(context.Background(), opWatchdog)
 	defer cancel()
-	out := p.run(ctx, rg, s, o)
+	defer func() {
+		// operations on the disk.Cache API run bazel-remote code on this
+		// goroutine: a panic there is the server crashing
+		if e := recover(); e != nil {
+			stack := string(debug.Stack())
+			rg.w.r.Violation(rg.key(p.name, "panic"),
+				fmt.Sprintf("%s: %s panicked inside bazel-remote: %v", rg.name, p.name, e),
+				map[string]any{"rig": rg.name, "op": p.name, "object": o.String(), "panic": fmt.Sprint(e), "stack": clip(stack, 3000)})
+			out = outcome{class: "watchdog", size: -1, detail: "panic"}
+		}
+	}()
+	out = p.run(ctx, rg, s, o)
 	if ctx.Err() != nil {
 		rg.w.r.Inconclusive(fmt.Sprintf("%s: %s did not finish within the %v watchdog", rg.name, p.name, opWatchdog))
 		return outcome{class: "watchdog", size: -1, detail: "harness watchdog expired: " + out.detail}
